@@ -6,6 +6,8 @@ from typing import Optional
 
 import z3
 
+from pyvc import seqs as Q
+
 from . import extract
 from .core import (CLASSES, CONSTS, NONE, SeqV, V, IntS, BoolS, Spec, VAL, Sym, State, DictPayload,
                    ExcInfo, Obligation, S_bool, S_int, S_none, S_seq, S_str, S_val, Unsupported, fresh,
@@ -93,7 +95,7 @@ class StmtMixin:
             return [(st, NORMAL)]  # docstring
         if isinstance(v, ast.Yield):
             val = self.eval(v.value, st) if v.value is not None else S_none()
-            self.do_yield(st, z3.Unit(box(val, st)))
+            self.do_yield(st, Q.Unit(st, box(val, st)))
             return self.simple(st)
         if isinstance(v, ast.YieldFrom):
             it = self.eval(v.value, st)
@@ -110,8 +112,8 @@ class StmtMixin:
         return s.startswith(("self.logger.", "self.log", "logger.", "logging.", "sys.stderr.", "sys.stdout.")) or s == "print"
 
     def do_yield(self, st, seqterm):
-        cur = st.yielded.t if st.yielded is not None else z3.Empty(SeqV)
-        st.yielded = Sym("seq", z3.Concat(cur, seqterm), Spec("seq", VAL))
+        cur = st.yielded.t if st.yielded is not None else Q.Empty()
+        st.yielded = Sym("seq", Q.Concat(st, cur, seqterm), Spec("seq", VAL))
 
     def s_Assign(self, node, st):
         val = self.eval(node.value, st)
@@ -142,10 +144,10 @@ class StmtMixin:
                 return
             if base.kind == "seq":
                 i = as_int(idx, st)
-                n = z3.Length(base.t)
+                n = Q.Length(base.t)
                 self.may_raise(st, z3.Or(i >= n, i < -n), "IndexError", f"line {target.lineno}")
                 j = norm_index(i, n)
-                new = z3.Concat(z3.Extract(base.t, 0, j), z3.Unit(box(val, st)), z3.Extract(base.t, j + 1, n - j - 1))
+                new = Q.Concat(st, Q.Extract(st, base.t, z3.IntVal(0), j), Q.Unit(st, box(val, st)), Q.Extract(st, base.t, j + 1, n - j - 1))
                 self.store_back(target.value, Sym("seq", new, self._widen(base.spec, val)), st)
                 return
             raise Unsupported(f"subscript assignment on {base.kind}")
@@ -162,7 +164,7 @@ class StmtMixin:
         rhs = self.eval(node.value, st)
         op = node.op
         if isinstance(op, ast.Add) and cur.kind == "seq":
-            new = Sym("seq", z3.Concat(cur.t, as_seq(self.materialise(rhs, st, node), st)), cur.spec)
+            new = Sym("seq", Q.Concat(st, cur.t, as_seq(self.materialise(rhs, st, node), st)), cur.spec)
         elif isinstance(op, (ast.Add, ast.Sub)) and (cur.kind in ("int", "bool") or rhs.kind in ("int", "bool")):
             a, b = as_int(cur, st), as_int(rhs, st)
             new = S_int(a + b if isinstance(op, ast.Add) else a - b)
@@ -182,13 +184,13 @@ class StmtMixin:
                 idx = self.eval(t.slice, st)
                 if base.kind == "seq":
                     i = as_int(idx, st)
-                    n = z3.Length(base.t)
+                    n = Q.Length(base.t)
                     self.may_raise(st, z3.Or(i >= n, i < -n), "IndexError", f"del line {node.lineno}")
                     strict = ast.unparse(t) in self.contract.strict_index
                     if strict:
                         self.may_raise(st, i < 0, "IndexError:negative-position", f"del line {node.lineno}")
                     j = norm_index(i, n)
-                    new = z3.Concat(z3.Extract(base.t, 0, j), z3.Extract(base.t, j + 1, n - j - 1))
+                    new = Q.Concat(st, Q.Extract(st, base.t, z3.IntVal(0), j), Q.Extract(st, base.t, j + 1, n - j - 1))
                     self.store_back(t.value, Sym("seq", new, base.spec), st)
                     continue
             raise Unsupported("del form")
@@ -423,7 +425,7 @@ class StmtMixin:
         if view is not None and view.seq is not None:
             st.env[f"_seq{ordinal}"] = Sym("seq", view.seq, Spec("seq", view.espec))
         if st.yielded is not None or self.kernel.is_generator:
-            st.env["_yielded"] = st.yielded or Sym("seq", z3.Empty(SeqV), Spec("seq", VAL))
+            st.env["_yielded"] = st.yielded or Sym("seq", Q.Empty(), Spec("seq", VAL))
 
     def check_invariants(self, ls, st, kind, ordinal, where):
         for cl in ls.invariants:
